@@ -471,7 +471,7 @@ def build(repo):
         g.resub('E1', r'self\.edge_properties\.get_all\(id\)\.into_iter\(\)\.collect\(\)', 'collect_props(&self.edge_properties, id)')
         g.ensures('shows_exactly_what_the_reader_may_see', 'edge_seen(self.edges@, self.id_to_edge_type@, id, if self.edges@.contains_key(id) { %s } else { -1 }, r)' % spec)
         g.body_start('proof { axiom_id_keys(); }')
-        g.before('if record.is_deleted()', 'proof { %s; assert(*chain == self.edges@[id]); }' % ('lemma_first_at_char(infos(chain.versions@), epoch)' if name == 'get_edge_at_epoch' else 'lemma_first_vis_char(infos(chain.versions@), epoch, tx_id)'))
+        g.after('let record = chain.visible_', 'proof { %s; assert(*chain == self.edges@[id]); }' % ('lemma_first_at_char(infos(chain.versions@), epoch)' if name == 'get_edge_at_epoch' else 'lemma_first_vis_char(infos(chain.versions@), epoch, tx_id)'))
     def loops(base, keys, rkeys, M, M0, T, KT, i, j):
         L = f.loop('in 0..%s.len()' % keys).kind('for').props('C02')
         L.invariants(('keys', 'obeys_key_model::<%s>() && %s@.no_duplicates() && (forall|k: %s| #[trigger] %s@.contains(k) <==> %s.contains_key(k))' % (KT, keys, KT, keys, M0)),
